@@ -10,6 +10,10 @@ import re
 
 from vplib import Job, REPO
 
+# example obligations link the whole library (precompiled once per run): a library function the example starts to call is
+# then inlined with its real body instead of being an undefined function
+LIBSRC = ['src/avtp/Utils.c']
+
 ENV2 = r'''
 #include <stdio.h>
 #include <stdlib.h>
@@ -136,7 +140,7 @@ __CPROVER_ensures(VP_QUEUE_OK) /*TAG C18:queue-stays-well-formed-for-the-next-da
 
     def mk(name, enforce, replace, body, extra_assume=(), timeout=1800, unwind=None):
         src = pre + contracts + body
-        return Job('examples/aaf-listener/' + name, src, [], enforce=enforce, replace=replace,
+        return Job('examples/aaf-listener/' + name, src, LIBSRC, enforce=enforce, replace=replace,
                    owners={'post': ['C18'], 'safety': ['C18'], 'assigns': ['C18'], 'loop': ['C18']}, clause_map=_tags(src),
                    function='aaf-listener.c:' + enforce, kind='example', config=config, includes=inc, timeout=timeout, unwind=unwind,
                    assumptions=AAF_ASSUME + list(extra_assume), fallback=lambda: mono)
@@ -150,12 +154,12 @@ __CPROVER_ensures(VP_QUEUE_OK) /*TAG C18:queue-stays-well-formed-for-the-next-da
     # helper added or removed): new_packet enforced against its contract with the example's own helpers INLINED; only the
     # library wrappers and the environment are replaced by contracts
     mono_src = pre + _only_new_packet(contracts) + np_body
-    mono = Job('examples/aaf-listener/new_packet~monolithic-fallback', mono_src, [], enforce='new_packet',
+    mono = Job('examples/aaf-listener/new_packet~monolithic-fallback', mono_src, LIBSRC, enforce='new_packet',
                replace=['recv', 'avtp_pdu_get', 'avtp_aaf_pdu_get', 'clock_gettime', 'timerfd_settime', 'malloc'],
                owners={'post': ['C18'], 'safety': ['C18'], 'assigns': ['C18'], 'loop': ['C18'], 'unwind': ['C18']}, clause_map=_tags(mono_src),
                function='aaf-listener.c:new_packet', kind='example-fallback', config=config, includes=inc, timeout=1800,
-               unwind={'schedule_sample': 1, 'new_packet': 1}, obj_bits=10,
-               assumptions=AAF_ASSUME + ['FALLBACK: helpers inlined instead of replaced by their contracts; the STAILQ_REMOVE search loop is closed by an unwinding assertion with bound 1'])
+               unwind={'*repo*': 5}, obj_bits=10,
+               assumptions=AAF_ASSUME + ['FALLBACK: helpers inlined instead of replaced by their contracts; every loop of the example is closed by an unwinding assertion with bound 5 (the STAILQ_REMOVE search loop never iterates)'])
     jobs.append(mk('new_packet', 'new_packet',
                    ['recv', 'is_valid_packet', 'avtp_aaf_pdu_get', 'get_presentation_time', 'schedule_sample'], np_body))
     jobs.append(mk('is_valid_packet', 'is_valid_packet', ['avtp_pdu_get', 'avtp_aaf_pdu_get'],
@@ -238,7 +242,7 @@ __CPROVER_ensures(VP_QUEUE_OK) /*TAG C18:queue-stays-well-formed-for-the-next-da
 
     def mk(name, enforce, replace, body, extra_assume=(), timeout=1800, unwind=None):
         src = pre + contracts + body
-        return Job('examples/cvf-listener/' + name, src, [], enforce=enforce, replace=replace,
+        return Job('examples/cvf-listener/' + name, src, LIBSRC, enforce=enforce, replace=replace,
                    owners={'post': ['C18'], 'safety': ['C18'], 'assigns': ['C18'], 'loop': ['C18']}, clause_map=_tags(src),
                    function='cvf-listener.c:' + enforce, kind='example', config=config, includes=inc, timeout=timeout, unwind=unwind,
                    assumptions=CVF_ASSUME + list(extra_assume), fallback=lambda: mono)
@@ -249,12 +253,12 @@ __CPROVER_ensures(VP_QUEUE_OK) /*TAG C18:queue-stays-well-formed-for-the-next-da
           '                         nals.stqh_first = e0; nals.stqh_last = &e0->entries.stqe_next; }\n')
     np_body = 'void harness(void)\n{\n' + hv + qs + '    new_packet(nondet_int(), nondet_int());\n    VP_CANARY();\n}\n'
     mono_src = pre + _only_new_packet(contracts) + np_body
-    mono = Job('examples/cvf-listener/new_packet~monolithic-fallback', mono_src, [], enforce='new_packet',
+    mono = Job('examples/cvf-listener/new_packet~monolithic-fallback', mono_src, LIBSRC, enforce='new_packet',
                replace=['recv', 'clock_gettime', 'timerfd_settime', 'malloc', 'memcpy'] + getters,
                owners={'post': ['C18'], 'safety': ['C18'], 'assigns': ['C18'], 'loop': ['C18'], 'unwind': ['C18']}, clause_map=_tags(mono_src),
                function='cvf-listener.c:new_packet', kind='example-fallback', config=config, includes=inc, timeout=1800,
-               unwind={'schedule_nal': 1, 'new_packet': 1}, obj_bits=10,
-               assumptions=CVF_ASSUME + ['FALLBACK: helpers inlined instead of replaced by their contracts; the STAILQ_REMOVE search loop is closed by an unwinding assertion with bound 1'])
+               unwind={'*repo*': 5}, obj_bits=10,
+               assumptions=CVF_ASSUME + ['FALLBACK: helpers inlined instead of replaced by their contracts; every loop of the example is closed by an unwinding assertion with bound 5 (the STAILQ_REMOVE search loop never iterates)'])
     jobs.append(mk('new_packet', 'new_packet',
                    ['recv', 'is_valid_packet', 'get_presentation_time', 'get_h264_data_len', 'schedule_nal',
                     'Avtp_Cvf_GetStreamDataLength', 'Avtp_Cvf_GetAvtpTimestamp'], np_body))
